@@ -124,8 +124,13 @@ impl PageCache {
         };
 
         let mut found_victim = None;
-        // Attempt to iterate over all the frames.
-        while self.cursor <= self.frames.len() && found_victim.is_none() {
+        let mut visited = 0;
+        // Attempt to iterate over all the frames, wrapping the clock hand around once.
+        while visited <= self.frames.len() && found_victim.is_none() {
+            visited += 1;
+            if self.cursor >= self.frames.len() {
+                self.cursor = 0;
+            }
             if let Some((pid, frame)) = self.frames.get_index(self.cursor) {
                 if frame.is_free() {
                     self.stats.eviction();
